@@ -545,7 +545,7 @@ class StreamResultRouter(StreamResult):
         self._test_ids = {}
         # Records sinks that should have do_start_stop_run called on them.
         self._sinks = []
-        if do_start_stop_run and fallback:
+        if do_start_stop_run and fallback is not None:
             self._sinks.append(fallback)
         self._in_run = False
 
@@ -605,7 +605,10 @@ class StreamResultRouter(StreamResult):
         if not policy_method:
             raise ValueError(f"bad policy {policy!r}")
         policy_method(self, sink, **policy_args)
-        if do_start_stop_run:
+        # A sink is registered for startTestRun / stopTestRun once, however
+        # many rules point at it (or if it is the fallback as well): it gets
+        # one start and one stop per run.
+        if do_start_stop_run and not any(s is sink for s in self._sinks):
             self._sinks.append(sink)
             if self._in_run:
                 sink.startTestRun()
@@ -1697,6 +1700,20 @@ class ExtendedToStreamDecorator(CopyStreamResult, StreamSummary, TestControl):
         # Deal with mismatched base class constructors.
         TestControl.__init__(self)
         self._started = False
+        # tags() and time() may be called before the run is started (by the
+        # first startTest, when startTestRun was not called).
+        self._tags = TagContext()
+        self.__now = None
+
+    def _implied_start(self):
+        """Start a run that was not started with startTestRun().
+
+        What tags() and time() supplied so far belongs to this run: it
+        survives the reset done by startTestRun().
+        """
+        tags, now = self._tags, self.__now
+        self.startTestRun()
+        self._tags, self.__now = tags, now
 
     def _get_failfast(self):
         return len(self.targets) == 2
@@ -1713,7 +1730,7 @@ class ExtendedToStreamDecorator(CopyStreamResult, StreamSummary, TestControl):
 
     def startTest(self, test):
         if not self._started:
-            self.startTestRun()
+            self._implied_start()
         self.status(test_id=test.id(), test_status="inprogress", timestamp=self._now())
         self._tags = TagContext(self._tags)
 
@@ -1731,7 +1748,7 @@ class ExtendedToStreamDecorator(CopyStreamResult, StreamSummary, TestControl):
 
     def _convert(self, test, err, details, status, reason=None):
         if not self._started:
-            self.startTestRun()
+            self._implied_start()
         test_id = test.id()
         now = self._now()
         if err is not None:
@@ -1839,7 +1856,7 @@ class ExtendedToStreamDecorator(CopyStreamResult, StreamSummary, TestControl):
 
     def wasSuccessful(self):
         if not self._started:
-            self.startTestRun()
+            self._implied_start()
         return super().wasSuccessful()
 
 
